@@ -2,7 +2,8 @@
    Every theorem is parametric in the HMAC function: it holds for EVERY function with a 32-byte output; the executable
    instance is the Gallina HMAC-SHA256 of Model/Sha256.v (published vectors as Examples; compared with the hmac / sha2
    crates and with Python's hashlib in the correspondence check).  The random fill is universally quantified. *)
-From RML Require Import Model.Base Model.Sha256 Model.Handshake Gen.Consts Proofs.HandshakeProofs.
+From Coq Require Import String.
+From RML Require Import Model.Base Model.SessionCommon Model.Sha256 Model.Handshake Gen.Consts Proofs.Sha256Vectors Proofs.HandshakeProofs.
 Local Open Scope N_scope.
 
 (* packet 1: 1536 bytes, zero time field, version, a digest keyed for the role at the position selected by the packet's
@@ -52,4 +53,16 @@ Print Assumptions C11_p1_digest.
 Print Assumptions C11_offset_range.
 Print Assumptions C11_find_digest_complete.
 Print Assumptions C11_p2_reply.
+(* the instance: published vectors (FIPS 180-4 "abc", RFC 4231 case 2) *)
+Theorem C11_sha256_vector_abc :
+  sha256 [97; 98; 99] = [186; 120; 22; 191; 143; 1; 207; 234; 65; 65; 64; 222; 93; 174; 34; 35; 176; 3; 97; 163; 150; 23; 122; 156; 180; 16; 255; 97; 242; 0; 21; 173].
+Proof. exact sha256_abc. Qed.
+
+Theorem C11_hmac_vector_rfc4231_2 :
+  hmac_sha256 (str "Jefe") (str "what do ya want for nothing?") =
+  [91; 220; 193; 70; 191; 96; 117; 78; 106; 4; 36; 38; 8; 149; 117; 199; 90; 0; 63; 8; 157; 39; 57; 131; 157; 236; 88; 185; 100; 236; 56; 67].
+Proof. exact hmac_rfc4231_2. Qed.
+
 Print Assumptions C11_hmac_sha256_length.
+Print Assumptions C11_sha256_vector_abc.
+Print Assumptions C11_hmac_vector_rfc4231_2.
